@@ -528,9 +528,15 @@ def impl_wvti(tmp, dom, tags, calls, saveto, overwrite, scale):
     sigs = [pm.Signal(t) for t in tags]
     mod = pm.WriteToVTI(sigs, domain=d, saveto=os.path.join(tmp.path, saveto), overwrite=overwrite, scale=scale)
     out = []
+    inplace = (len(tags) + len(calls) + nelx) % 2 == 0
     for states in calls:
         for s, st in zip(sigs, states):
-            s.state = st
+            cur = s.state
+            if inplace and isinstance(cur, np.ndarray) and isinstance(st, np.ndarray) and cur.shape == st.shape and cur.dtype == st.dtype \
+                    and cur.flags.writeable:
+                cur[...] = st          # the optimisation loop updates the state arrays IN PLACE between the iterations
+            else:
+                s.state = np.array(st, copy=True) if isinstance(st, np.ndarray) else st
         with warnings.catch_warnings(record=True) as w:
             warnings.simplefilter("always")
             r = call_impl(mod.response)
